@@ -133,12 +133,12 @@ var c09APIs = map[string]*c09API{}
 var c09Mu sync.Mutex
 
 func c09Spec(anon bool) string {
-	sec := `[{"key":[]}]`
+	sec := `[{"key":[]},{"tok":[]}]`
 	if anon {
-		sec = `[{"key":[]},{}]`
+		sec = `[{"key":[]},{"tok":[]},{}]`
 	}
 	return `{"swagger":"2.0","info":{"title":"t","version":"1"},"consumes":["application/json"],"produces":["application/json","text/plain"],
-"securityDefinitions":{"key":{"type":"apiKey","in":"header","name":"X-Key"}},
+"securityDefinitions":{"key":{"type":"apiKey","in":"header","name":"X-Key"},"tok":{"type":"apiKey","in":"header","name":"X-Tok"}},
 "paths":{"/items/{id}":{"post":{"security":` + sec + `,"parameters":[{"name":"id","in":"path","type":"string","required":true},
 {"name":"body","in":"body","required":true,"schema":{"type":"object"}}],"responses":{"200":{"description":"ok"}}}},
 "/open":{"get":{"responses":{"200":{"description":"ok"}}}},
@@ -179,11 +179,23 @@ func c09Build(anon bool, authz bool) *c09API {
 		c09Rendezvous()
 		return keyAuth.Authenticate(params)
 	}))
+	// the second alternative: a token header; a request presenting both credentials is the FIRST alternative's
+	tokAuth := security.APIKeyAuth("X-Tok", "header", func(tok string) (interface{}, error) {
+		if strings.HasPrefix(tok, "tok-") {
+			return "tok:" + tok, nil
+		}
+		return nil, errors.Unauthenticated("tok")
+	})
+	api.RegisterAuth("tok", tokAuth)
 	if authz {
 		api.RegisterAuthorizer(runtime.AuthorizerFunc(func(r *http.Request, principal interface{}) error {
 			c09Count(&c09Cnt.authz)
-			if p, ok := principal.(string); ok && p != "user:"+r.Header.Get("X-Key") {
-				c09Leak("authorizer: request with key %q was given principal %q", r.Header.Get("X-Key"), p)
+			want := "user:" + r.Header.Get("X-Key")
+			if r.Header.Get("X-Key") == "" {
+				want = "tok:" + r.Header.Get("X-Tok")
+			}
+			if p, ok := principal.(string); ok && p != want {
+				c09Leak("authorizer: request with key %q / token %q was given principal %q", r.Header.Get("X-Key"), r.Header.Get("X-Tok"), p)
 			}
 			if r.Header.Get("X-Authz") == "deny" {
 				return fmt.Errorf("denied")
@@ -193,6 +205,7 @@ func c09Build(anon bool, authz bool) *c09API {
 	}
 	api.RegisterOperation("post", "/items/{id}", runtime.OperationHandlerFunc(func(params interface{}) (interface{}, error) {
 		m := params.(map[string]interface{})
+		c09Retain(m)
 		return map[string]interface{}{"id": m["id"], "body": m["body"]}, nil
 	}))
 	api.RegisterOperation("get", "/open", runtime.OperationHandlerFunc(func(params interface{}) (interface{}, error) {
@@ -200,6 +213,7 @@ func c09Build(anon bool, authz bool) *c09API {
 	}))
 	api.RegisterOperation("get", "/find/{id}", runtime.OperationHandlerFunc(func(params interface{}) (interface{}, error) {
 		m := params.(map[string]interface{})
+		c09Retain(m)
 		return map[string]interface{}{"id": m["id"], "q": m["q"]}, nil
 	}))
 	api.RegisterProducer("text/plain", runtime.JSONProducer()) // the handler answers maps; only the negotiated type matters here
@@ -211,6 +225,38 @@ func c09Build(anon bool, authz bool) *c09API {
 		a.routeOffers = append([]string(nil), mr.Produces...)
 	}
 	return a
+}
+
+// The handlers keep the bound values they were given (as a handler that queues its work does); after the requests of a case
+// are over every kept map must still hold what it held when its handler ran.
+type c09Kept struct {
+	m  map[string]interface{}
+	id interface{}
+	n  int
+}
+
+var c09KeptMu sync.Mutex
+var c09KeptMaps []c09Kept
+
+func c09Retain(m map[string]interface{}) {
+	c09KeptMu.Lock()
+	if len(c09KeptMaps) < 4096 {
+		c09KeptMaps = append(c09KeptMaps, c09Kept{m, m["id"], len(m)})
+	}
+	c09KeptMu.Unlock()
+}
+
+func c09CheckKept() {
+	c09KeptMu.Lock()
+	kept := c09KeptMaps
+	c09KeptMaps = nil
+	c09KeptMu.Unlock()
+	for _, k := range kept {
+		if len(k.m) != k.n || k.m["id"] != k.id {
+			c09Leak("bound values kept by the handler of id %v changed after it returned: %d entries then, now %v", k.id, k.n, k.m)
+			return
+		}
+	}
 }
 
 // c09Rendezvous widens the overlap of concurrent requests between route matching and binding: in the
@@ -284,6 +330,8 @@ func c09Request(in c09In, rid string) *http.Request {
 		req.Header.Set("Accept", "*/*;q=0.5, image/gif")
 	case "star":
 		req.Header.Set("Accept", "*/*")
+	case "text":
+		req.Header.Set("Accept", "text/plain, application/json;q=0.5")
 	case "jsonS": // two spellings that differ in letter case only; a weight unique to the case
 		req.Header.Set("Accept", fmt.Sprintf("application/json;q=0.7%06d", in.Salt))
 	case "jsonSU":
@@ -294,6 +342,11 @@ func c09Request(in c09In, rid string) *http.Request {
 		req.Header.Set("X-Key", "good-"+rid)
 	case "bad":
 		req.Header.Set("X-Key", "bad-"+rid)
+	case "tok": // credentials for the second alternative only
+		req.Header.Set("X-Tok", "tok-"+rid)
+	case "both": // credentials for both alternatives: the first one decides
+		req.Header.Set("X-Key", "good-"+rid)
+		req.Header.Set("X-Tok", "tok-"+rid)
 	}
 	if in.Authz == "deny" {
 		req.Header.Set("X-Authz", "deny")
@@ -301,7 +354,7 @@ func c09Request(in c09In, rid string) *http.Request {
 	return req
 }
 
-var c09Other = []string{"image/png", "text/plain"}
+var c09Other = []string{"image/png", "text/plain; charset=utf-8"}
 
 func c09MT(s string) int {
 	switch s {
@@ -313,6 +366,8 @@ func c09MT(s string) int {
 		return 3
 	case "image/png":
 		return 4
+	case "text/plain; charset=utf-8": // an offer that carries a parameter: what is negotiated is the offer as spelled
+		return 5
 	case "":
 		return 0
 	}
@@ -344,7 +399,7 @@ func c09Static(in c09In, a *c09API) string {
 	neg1 := middleware.NegotiateContentType(probe, c09Other, "")
 	auth := "AuthRefused"
 	switch {
-	case in.Key == "good":
+	case in.Key == "good", in.Key == "tok", in.Key == "both":
 		auth = "AuthPrincipal"
 	case in.Key == "absent" && in.Anon:
 		auth = "AuthAnon"
@@ -401,6 +456,7 @@ func (c09) Run(inAny any) any {
 		obs.Panicked, obs.Panic = recoverTo(func() {
 			c09Leaks = nil
 			c09RunConc(in, a, &obs)
+			c09CheckKept()
 			if len(c09Leaks) > 0 {
 				obs.ConcOK = false
 				obs.ConcBad = append(obs.ConcBad, c09Leaks...)
@@ -425,6 +481,7 @@ func (c09) Run(inAny any) any {
 			obs.Steps = append(obs.Steps, st)
 		}
 		obs.Lookups, obs.Authn, obs.Authz, obs.Binds = int(c09Cnt.lookups), int(c09Cnt.authn), int(c09Cnt.authz), int(c09Cnt.binds)
+		c09CheckKept()
 		obs.OwnOK, obs.Leaks = len(c09Leaks) == 0, c09Leaks
 	})
 	return obs
@@ -498,7 +555,11 @@ func c09Op(a *c09API, in c09In, rid string, req *http.Request, o int) (c09Step, 
 			st.Res = "RAuth 0"
 		case p != nil:
 			st.Res = "RAuth 1"
-			if ps, _ := p.(string); ps != "user:good-"+rid {
+			wantP := "user:good-" + rid
+			if in.Key == "tok" {
+				wantP = "tok:tok-" + rid
+			}
+			if ps, _ := p.(string); ps != wantP {
 				c09Leak("Authorize: request %s got principal %q", rid, ps)
 			}
 		default:
@@ -642,6 +703,7 @@ func c09RunMulti(in c09In, obs *c09Obs) {
 			obs.Leaks = append(obs.Leaks, fmt.Sprintf("request %s interleaved after the others: %v; served before them: %v", rid, obs.Multi[i], again))
 		}
 	}
+	c09CheckKept()
 	obs.OwnOK = len(c09Leaks) == 0
 	obs.Leaks = append(obs.Leaks, c09Leaks...)
 }
@@ -656,10 +718,10 @@ func c09RunConc(in c09In, a *c09API, obs *c09Obs) {
 	for i := 0; i < in.N; i++ {
 		j := in
 		j.Target = []string{"items", "items", "open", "missing"}[r.Intn(4)]
-		j.Key = []string{"good", "good", "bad", "absent"}[r.Intn(4)]
+		j.Key = []string{"good", "good", "bad", "absent", "tok", "both"}[r.Intn(6)]
 		j.Body = []string{"valid", "valid", "invalid", "none"}[r.Intn(4)]
 		j.CT = []string{"json", "json", "jsoncs", "text", "absent"}[r.Intn(5)]
-		j.Accept = []string{"json", "absent", "png", "any", "star"}[r.Intn(5)]
+		j.Accept = []string{"json", "absent", "png", "any", "star", "text"}[r.Intn(6)]
 		j.Esc = r.Intn(3) == 0
 		j.BadN = r.Intn(2) == 0
 		if r.Intn(3) == 0 {
@@ -779,8 +841,8 @@ var c09Vals = map[string][]string{
 	"target": {"items", "items", "items", "open", "missing", "find", "find"},
 	"ct":     {"json", "json", "jsoncs", "text", "malformed", "absent"},
 	"body":   {"valid", "valid", "invalid", "none"},
-	"accept": {"json", "absent", "png", "any", "star", "star"},
-	"key":    {"good", "good", "bad", "absent"},
+	"accept": {"json", "absent", "png", "any", "star", "star", "text", "text"},
+	"key":    {"good", "good", "bad", "absent", "tok", "both"},
 	"authz":  {"none", "accept", "deny"},
 }
 
